@@ -10,7 +10,7 @@ SUB, JUDGE = "stream-out", "StreamOutTrace"
 
 
 def model(ctx):
-    cfg = ("SPECIFICATION Spec\nCONSTANTS\n  Producers = {1, 2, 3}\n  PerProducer = %d\n  TwoWriters = %s\n  WriteFails = FALSE\n"
+    cfg = ("SPECIFICATION Spec\nCONSTANTS\n  Producers = {1, 2, 3}\n  PerProducer = %d\n  TwoWriters = %s\n  WriteFails = FALSE\n  AppShuts = FALSE\n"
            "INVARIANTS OnceOnly Submitted ProducerOrder\n%s")
     n = 3 if ctx.quick() else 4
     r = ctx.tlc("StreamOut", cfg % (n, "FALSE", "PROPERTIES AllWritten\n"), workers=4, label="StreamOut[1 writer]")
@@ -23,7 +23,11 @@ def model(ctx):
                  workers=4, label="StreamOut[write failure]")
     if r3["violation"]:
         raise Infra("StreamOut.tla with write failures violates %s" % r3["violation"])
-    ctx.extra["model"] = dict(write_failure_states=r3["distinct"], states=r["distinct"], producers=3, per_producer=n, two_writers_refuted=True)
+    r4 = ctx.tlc("StreamOut", cfg.replace("AppShuts = FALSE", "AppShuts = TRUE").replace("ProducerOrder", "ProducerOrder NothingAfterPartial") % (n, "FALSE", ""),
+                 workers=4, label="StreamOut[shutdown]")
+    if r4["violation"]:
+        raise Infra("StreamOut.tla with an application shutdown violates %s" % r4["violation"])
+    ctx.extra["model"] = dict(shutdown_states=r4["distinct"], write_failure_states=r3["distinct"], states=r["distinct"], producers=3, per_producer=n, two_writers_refuted=True)
 
 
 def run(ctx):
